@@ -10,7 +10,9 @@ import time
 VERIF = os.path.dirname(os.path.dirname(os.path.abspath(__file__)))
 REPO = os.environ.get("VERIF_REPO", "/repo")
 CACHE = os.path.join(VERIF, ".cache")
-CLI_TARGET = os.path.join(CACHE, "cli-target")
+# target directories are per repository path: cargo fingerprints contain absolute source paths
+REPO_TAG = "" if REPO == "/repo" else "-" + hashlib.sha256(REPO.encode()).hexdigest()[:8]
+CLI_TARGET = os.path.join(CACHE, "cli-target" + REPO_TAG)
 ANALYZER_TARGET = os.path.join(CACHE, "analyzer-target")
 DRIVER_TARGET = os.path.join(CACHE, "driver-target")
 ANALYZER_BIN = os.path.join(ANALYZER_TARGET, "release", "verif-analyzer")
